@@ -3,4 +3,4 @@ From Coq Require Import Extraction ExtrOcamlBasic NArith ZArith.
 From Tele Require Import Lib.Bytes Lib.BytesN Model.DecodeStack Model.Layout Model.Parse.
 Extraction Language OCaml.
 Extraction "parse_model.ml" len get32 parse parse_with spec_read decode_stack last_wins
-  twin_clash_from linked_pairs N.ltb N.leb N.add N.sub Z.of_N.
+  twin_clash_from linked_pairs read_counter read_file find_last N.ltb N.leb N.add N.sub Z.of_N.
